@@ -1,5 +1,5 @@
 ------------------------------- MODULE TraceAlgo -------------------------------
-(* Events: Reduce n val | Join lf ll rf rl | Det ... | Scan n fin pre total | Sort in out keydiv | SortBig sorted perm | Stuck | Crash | Escaped | Reset *)
+(* Events: Reduce n val | Join lf ll rf rl | Det ... | Scan n fin pre total | Sort in out keydiv | SortBig sorted perm | SortSweep n bad firstbad | Stuck | Crash | Escaped | Reset *)
 EXTENDS Integers, Sequences, FiniteSets, TLC, Json, IOUtils
 TraceLog == ndJsonDeserialize(IOEnv.TRACE)
 VARIABLE l
@@ -13,6 +13,7 @@ TNext == \/ Is("Reduce") /\ A!ReduceOK(Ev.n, Ev.val)
          \/ Is("Scan") /\ A!ScanOK(Ev.n, Ev.fin, Ev.pre, Ev.total)
          \/ Is("Sort") /\ A!SortOK(Ev.in, Ev.out, Ev.keydiv)
          \/ Is("SortBig") /\ Ev.sorted = 1 /\ Ev.perm = 1
+         \/ Is("SortSweep") /\ Ev.bad = 0                      \* every "sorted except one inversion" input of that size came back sorted
          \/ Is("Reset")
 TraceSpec == TInit /\ [][TNext]_l
 NotAccepted == l <= Len(TraceLog)
